@@ -157,6 +157,9 @@ def run_group(prop, tier, seed, t0, families, module, cfg, prefixes, mcs, need_h
         fmodule, fcfg = (fam[2], fam[3]) if len(fam) > 3 else (module, cfg)
         fn = (fam[5] if tier == "thorough" else fam[4]) if len(fam) > 5 else n
         files, _ = drive(family, prop, seed, tier, fn, 8 if tier == "thorough" else 4, extra, "-" + fmodule)
+        if family in SPLIT_FAMILIES:
+            # several daemons in one world: each daemon's trace is judged on its own by the single-daemon monitor
+            files = [p for f in files for p in split_by_daemon(f)]
         results = validate(fmodule, fcfg, files, prop.lower() + "-" + family + "-" + fmodule)
         tot, h, fo = collect(prop, prefixes, results, files, v, {"family": family, "seed": seed, "tier": tier})
         total += tot
@@ -189,7 +192,8 @@ def run_group(prop, tier, seed, t0, families, module, cfg, prefixes, mcs, need_h
     return rc
 
 
-FAMILY_MODULE = {"respond": ("TraceRespond", "TraceRespond.cfg"), "browse": ("TraceBrowse", "TraceBrowse.cfg"),
+SPLIT_FAMILIES = {"conflict"}
+FAMILY_MODULE = {"conflict": ("TraceRespond", "TraceRespond.cfg"), "respond": ("TraceRespond", "TraceRespond.cfg"), "browse": ("TraceBrowse", "TraceBrowse.cfg"), "browsew": ("TraceBrowse", "TraceBrowse.cfg"),
                  "resolve": ("TraceBrowse", "TraceBrowse.cfg"), "flood": ("TraceBrowse", "TraceBrowse.cfg"),
                  "silent": ("TraceBrowse", "TraceBrowse.cfg")}
 
@@ -205,10 +209,11 @@ def replay_group(path, module, cfg, prefixes, prop):
     a = c["args"]
     out = os.path.join(core.workdir(prop.lower()), "replay.ndjson")
     core.harness([a["family"], "--from", sid, "--to", sid, "--out", out, "--seed", a["seed"], "--tier", a["tier"]])
+    outs = split_by_daemon(out) if a["family"] in SPLIT_FAMILIES else [out]
     mods = [(module, cfg)]
     if a["family"] == "silent":
         mods.append(("TraceRespond", "TraceRespond.cfg"))
     for (m, c) in mods:
-        res = validate(m, c, [out], prop.lower() + "-replay")
-        collect(prop, prefixes, res, [out], v, a)
+        res = validate(m, c, outs, prop.lower() + "-replay")
+        collect(prop, prefixes, res, outs, v, a)
     return v.finish()
